@@ -257,11 +257,12 @@ def safe_error_reply(m, ev):
     return ev
 
 
-def follower_campaign(rng, n, limit):
+def follower_campaign(rng, n, limit, same=False):
     """A follower f hears nothing for a while - neither the elections (its vote requests are delayed
     or lost) nor part of the health checks (delayed) - and then gets everything that is in flight:
     checks of earlier terms, of its own term and of later terms, from the leader it follows, from
     another one, or while it follows nobody; then the delayed vote requests of the elections it missed."""
+    # [same]: aimed at 'the node f follows is deposed and elected again in a later term, f hears of neither'
     c = Camp(rng, n, limit)
     m = c.m
     f = rng.randrange(n)
@@ -276,18 +277,18 @@ def follower_campaign(rng, n, limit):
         c.leader_tick(L, to)
         r = rng.random()
         for p in to:
-            if p == f and r < 0.25:
+            if p == f and r < 0.25 and not same:
                 continue                      # f's first check is delayed too
             c.deliver_checks_to(p)
     last_leader = L
     # elections that f does not hear of
-    for _ in range(rng.randrange(1, 5)):
+    for rnd in range(rng.randrange(2, 5) if same else rng.randrange(1, 5)):
         cands = [x for x in range(n) if x != f and c.can_stand(x)]
         if not cands:
             # only a self-leader and electing nodes are left
             break
         followed = m.leader[f]
-        if followed in cands and rng.random() < 0.65:
+        if followed in cands and (same or rng.random() < 0.65):
             cand = followed                   # the node f follows leads again in a later term
         elif last_leader in cands and rng.random() < 0.4:
             cand = last_leader
@@ -295,9 +296,12 @@ def follower_campaign(rng, n, limit):
             cand = rng.choice(cands)
         voters = [v for v in c.others(cand) if v != f]
         rng.shuffle(voters)
-        if rng.random() < 0.3:
+        if same:
+            # the node f follows hears the candidate first (and steps down); nobody is left out
+            voters.sort(key=lambda v: 0 if v == followed else 1)
+        elif rng.random() < 0.3:
             voters = voters[:rng.randrange(0, len(voters) + 1)]
-        c.elect(cand, voters, deaf=(f,) if rng.random() < 0.8 else (), rest="mix")
+        c.elect(cand, voters, deaf=(f,) if same or rng.random() < 0.8 else (), rest="mix")
         if m.self_leader(cand):
             last_leader = cand
             # the new leader's ring may change before f hears of it (signature / node list differ)
@@ -402,8 +406,8 @@ def extra_scripts(ctx):
     quick = ctx.tier == "quick"
     # VERIF_C17B_NOFIXED=1: evaluation of the generator alone (own regressions must be found without the fixed scenarios)
     res = [] if os.environ.get("VERIF_C17B_NOFIXED") else [SAME_LEADER, LONELY]
-    for _ in range(36 if quick else 500):
-        res.append(follower_campaign(rng, rng.choice([3, 3, 4, 5, 5]), rng.choice([1, 2, 2, 3])))
+    for k in range(36 if quick else 500):
+        res.append(follower_campaign(rng, rng.choice([3, 3, 4, 5, 5]), rng.choice([1, 2, 2, 3]), same=(k % 3 == 0)))
     for _ in range(14 if quick else 200):
         s = partition_campaign(rng, rng.choice([3, 3, 4, 5]), rng.choice([1, 2, 3]))
         if s:
